@@ -84,7 +84,7 @@ int main(void) {
                 dup2(pfd[0], 0); close(pfd[0]);
                 clearerr(stdin);
             }
-            h_n = 0; errno = 0; h_fault_kind = 0;
+            h_n = 0; errno = H_ERRNO_PRE(id); h_fault_kind = 0;
             printf("#%ld\n", id); fflush(stdout);
             if (!sigsetjmp(h_jb, 1)) {
                 h_armed = 1; alarm(5);
